@@ -58,10 +58,17 @@ def Word.nonempty : Word → Bool
   | .list (_ :: _) => true
   | _ => false
 
-/-- number of jobs of each submitter -/
-abbrev Workload := List Nat
+/-- number of jobs of each submitter: `jobs[i]` for the listed submitters, `rest` for every other one
+    (`rest = 0`: a closed system with finitely many submitters; `⟨[], 1⟩`: the strand as an open executor, every
+    client job is handed over by its own `Submit` call — used for the lower levels of a tower of strands) -/
+structure Workload where
+  jobs : List Nat
+  rest : Nat := 0
+  deriving Repr
 
-def jobsOf (w : Workload) (i : Nat) : Nat := w.getD i 0
+instance : Coe (List Nat) Workload := ⟨fun l => { jobs := l }⟩
+
+def jobsOf (w : Workload) (i : Nat) : Nat := w.jobs.getD i w.rest
 
 /-- submitter program counter (inside `Strand::Submit`) -/
 inductive SPc where
